@@ -1,8 +1,196 @@
 /-
-  C14 — property theorems (being added; see tools/agent_briefs/C14.md)
+  C14 — property theorems: unary-chain collapsing and binarization
+  (statements: tools/agent_briefs/C14.md; helpers: TT/Lemmas/Collapse.lean, TT/Lemmas/Binarize.lean)
+
+  All statements of the brief are proved as given, except `unbinarize_binarize`, which is FALSE as
+  given (see `unbinarize_binarize_needs_sibDistinct` below for the counterexample) and is proved
+  with the one extra hypothesis `sibDistinct t = true` (siblings have pairwise different leftmost
+  tokens; true of every well-formed tree).
 -/
 import TT.Spec.Transform
+import TT.Lemmas.Collapse
+import TT.Lemmas.Binarize
+import TT.Lemmas.WF
 namespace TT.Props.C14
 open TT TT.Tree TT.Spec
+open TT.Lemmas.Collapse TT.Lemmas.Binarize
+
+/-! ### example trees -/
+
+private def lf (n : Nat) (l w : String) (h : Option Bool := none) : Tree :=
+  leaf n { label := l.toList, word := some w.toList, head := h }
+private def nd (l : String) (ks : List Tree) (h : Option Bool := none) : Tree :=
+  node { label := l.toList, head := h } ks
+
+/-- unary chain of length 3 at the root (`ROOT-S-VP`), one in the middle (`NP-NX`, below a binary node)
+    and one of length 3 above a token (`AP-AX-AY` above token 2) -/
+def exChains : Tree :=
+  nd "ROOT" [nd "S" [nd "VP" [
+    nd "NP" [nd "NX" [lf 1 "N" "dogs", lf 3 "V" "bark"]],
+    nd "AP" [nd "AX" [nd "AY" [lf 2 "ADV" "loudly"]]]]]]
+
+/-- a 4-ary node with its head in the middle (third child), stored out of order, above a ternary
+    node with the head first and a binary node -/
+def exFlat : Tree :=
+  nd "S" [
+    lf 7 "D" "d" (some false),
+    nd "X" [lf 1 "A" "a" (some true), lf 2 "B" "b" (some false), lf 3 "C" "c" (some false)] (some false),
+    nd "Y" [lf 5 "E" "e", lf 6 "F" "f"] (some true),
+    lf 4 "G" "g" (some false)]
+
+/-! ### collapse / uncollapse -/
+
+theorem collapse_no_unary (t : Tree) : hasUnary (collapse t) = false :=
+  hasUnary_collapse t
+
+example : hasUnary exChains = true ∧ hasUnary (collapse exChains) = false := by decide
+
+theorem collapse_labels (t : Tree) : consLabels (collapse t) = collapsedLabels t :=
+  consLabels_collapse t
+
+example : consLabels (collapse exChains) =
+    ["ROOT+S+VP".toList, "NP+NX".toList] := by decide
+
+theorem collapse_leafNums (t : Tree) : (collapse t).leafNums = t.leafNums := by
+  have h := congrArg (List.map Prod.fst) (leaves_collapse t)
+  simp only [List.map_map] at h
+  exact h
+
+example : (collapse exChains).leafNums = [1, 3, 2] := by decide
+
+theorem collapse_words (t : Tree) :
+    (collapse t).leaves.map (fun l => (l.num, l.fields.word)) = t.leaves.map (fun l => (l.num, l.fields.word)) :=
+  leaves_collapse t
+
+example : (collapse exChains).leaves.map (fun l => (l.num, l.fields.word)) =
+    [(1, some "dogs".toList), (3, some "bark".toList), (2, some "loudly".toList)] := by decide
+
+/-- uncollapsing a collapsed tree restores labels, words and structure, for chains of any length, at the root,
+    in the middle and above tokens, provided no label contains '+' -/
+theorem uncollapse_collapse (t : Tree) (h : noCharInLabels '+' t = true) :
+    stripT (uncollapse (collapse t)) = stripT t :=
+  stripT_uncollapse_collapse t h
+
+example : noCharInLabels '+' exChains = true := by decide
+/-- the token below the chain `AP-AX-AY` absorbed the three labels, the root chain became one node -/
+example : stripT (collapse exChains) =
+    node { label := "ROOT+S+VP".toList } [
+      node { label := "NP+NX".toList } [
+        leaf 1 { label := "N".toList, word := some "dogs".toList },
+        leaf 3 { label := "V".toList, word := some "bark".toList }],
+      leaf 2 { label := "AP+AX+AY+ADV".toList, word := some "loudly".toList }] := by rfl
+example : stripT (uncollapse (collapse exChains)) = stripT exChains := by rfl
+
+/-! ### binarize -/
+
+theorem binarize_arity (bare : Bool) (t t' : Tree) (h : binarize bare t = .ok t') : maxArity t' ≤ 2 := by
+  revert t t'
+  refine binarize_induct bare (fun _ t' => maxArity t' ≤ 2) ?_ ?_ ?_
+  · intro n f; simp [maxArity]
+  · intro f ks _ hP hl
+    simp only [maxArity, List.length_map]
+    have := (maxArityL_le 2 (ks.map (binOk bare))).2 (by
+      intro k hk
+      obtain ⟨k0, hk0, rfl⟩ := List.mem_map.1 hk
+      exact hP k0 hk0)
+    omega
+  · intro f ks two _ hP _ hout
+    simp only [maxArity]
+    have h1 := hout.length_le
+    have h2 := (maxArityL_le 2 two).2 (hout.arity (by
+      intro k hk
+      obtain ⟨k0, hk0, rfl⟩ := List.mem_map.1 ((mem_sortBy _ _ _).1 hk)
+      exact hP k0 hk0))
+    omega
+
+/-- the result on the 4-ary example (head `Y` third in token order): the children are peeled from the left
+    (`X`, then `G`) until two are left (`Y`, `D`); the ternary node `X` with its head first is peeled from the right -/
+example : ∃ t', binarize true exFlat = .ok t' ∧ maxArity exFlat = 4 ∧ maxArity t' = 2 ∧
+    consLabels t' = ["S", "@", "@", "Y", "X", "@"].map String.toList ∧
+    t'.leafNums = [5, 6, 7, 4, 1, 2, 3] := by
+  refine ⟨_, rfl, ?_, ?_, ?_, ?_⟩ <;> decide
+
+/-- removing the @-nodes restores the original tree (modulo storage order of children).
+
+    CORRECTED STATEMENT: the statement of the brief (without `hsd`) is false, see
+    `unbinarize_binarize_needs_sibDistinct`.  `sibDistinct t` holds for every well-formed tree
+    (`TT.Lemmas.WF.WF_sibDistinct`). -/
+theorem unbinarize_binarize (bare : Bool) (t t' : Tree) (h : binarize bare t = .ok t')
+    (hat : noAtLabels t = true) (hsd : sibDistinct t = true) : sortKids (unbinarize t') = sortKids t :=
+  (unbinarize_binarizeAux bare t t' h hat hsd).2
+
+example : noAtLabels exFlat = true ∧ sibDistinct exFlat = true := by decide
+example : ∃ t', binarize true exFlat = .ok t' ∧ sortKids (unbinarize t') = sortKids exFlat :=
+  ⟨_, rfl, rfl⟩
+example : ∃ t', binarize false exFlat = .ok t' ∧ sortKids (unbinarize t') = sortKids exFlat :=
+  ⟨_, rfl, rfl⟩
+
+/-- the statement of the brief holds for well-formed trees -/
+theorem unbinarize_binarize_WF (bare : Bool) (t t' : Tree) (h : binarize bare t = .ok t')
+    (hat : noAtLabels t = true) (hwf : WF t = true) : sortKids (unbinarize t') = sortKids t :=
+  unbinarize_binarize bare t t' h hat (TT.Lemmas.WF.WF_sibDistinct t hwf)
+
+example : WF exFlat = true := by decide
+
+/-- three sibling tokens carrying the same number, the head in the middle -/
+def exDup : Tree :=
+  nd "S" [lf 1 "A" "a" (some false), lf 1 "B" "b" (some true), lf 1 "C" "c" (some false)]
+
+/-- COUNTEREXAMPLE to `unbinarize_binarize` as stated in the brief (no `sibDistinct`): with equal
+    leftmost tokens among siblings the stable sort keeps the storage order, which binarization changes
+    (`A B C` becomes `B C A`).  The same happens with childless constituents (leftmost = 0). -/
+theorem unbinarize_binarize_needs_sibDistinct :
+    ∃ t t', binarize true t = .ok t' ∧ noAtLabels t = true ∧ sortKids (unbinarize t') ≠ sortKids t := by
+  refine ⟨exDup, _, rfl, by decide, ?_⟩
+  intro h
+  have h' := congrArg (fun x => x.kids.map (fun k => k.fields.label)) h
+  revert h'
+  decide
+
+/-- every constituent of the result is an original one (same label multiset) or is @-labelled -/
+theorem binarize_labels (bare : Bool) (t t' : Tree) (h : binarize bare t = .ok t') (hat : noAtLabels t = true) :
+    ((consLabels t').filter (fun l => l.head? != some '@')).Perm (consLabels t) := by
+  have h1 := binarize_labels_filter bare t t' h
+  rw [filter_notAt_of_noAt t hat] at h1
+  exact h1
+
+example : ∃ t', binarize false exFlat = .ok t' ∧
+    consLabels t' = ["S", "@S", "@S", "Y", "X", "@X"].map String.toList ∧
+    (consLabels t').filter (fun l => l.head? != some '@') = ["S", "Y", "X"].map String.toList ∧
+    consLabels exFlat = ["S", "X", "Y"].map String.toList := by
+  refine ⟨_, rfl, ?_, ?_, ?_⟩ <;> decide
+
+theorem binarize_leafNums (bare : Bool) (t t' : Tree) (h : binarize bare t = .ok t') : t'.leafNums.Perm t.leafNums :=
+  binarize_leafNums_perm bare t t' h
+
+example : ∃ t', binarize false exFlat = .ok t' ∧ t'.leafNums = [5, 6, 7, 4, 1, 2, 3] ∧
+    exFlat.leafNums = [7, 1, 2, 3, 5, 6, 4] := by
+  refine ⟨_, rfl, ?_, ?_⟩ <;> decide
+
+/-- a node with more than two children none of which is marked as head is rejected -/
+theorem binarize_rejects_headless (bare : Bool) (f : Fields) (ks : List Tree) (h3 : 2 < ks.length)
+    (hh : ∀ k ∈ ks, k.fields.head ≠ some true) : ∃ e, binarize bare (node f ks) = .error e :=
+  binarizeAux_rejects bare f ks h3 hh
+
+example : binarize true (nd "S" [lf 1 "A" "a" (some false), lf 2 "B" "b", lf 3 "C" "c" (some false)])
+    = .error .valueError := by rfl
+
+/-- ... and a tree whose constituents with more than two children all have a marked head child is accepted -/
+theorem binarize_accepts (bare : Bool) (t : Tree)
+    (h : ∀ s ∈ t.subtrees, ∀ f ks, s = node f ks → 2 < ks.length →
+          (∀ k ∈ ks, k.fields.head.isSome) ∧ ∃ k ∈ ks, k.fields.head = some true) :
+    ∃ t', binarize bare t = .ok t' :=
+  binarizeAux_accepts bare t h
+
+/-- `exFlat` meets the hypothesis of `binarize_accepts` (its binary node `Y` has unmarked children) -/
+example : ∀ s ∈ exFlat.subtrees, ∀ f ks, s = node f ks → 2 < ks.length →
+    (∀ k ∈ ks, k.fields.head.isSome) ∧ ∃ k ∈ ks, k.fields.head = some true := by
+  intro s hs f ks hsk hl
+  simp only [exFlat, nd, lf, subtrees, subtreesL, List.cons_append, List.nil_append, List.append_nil,
+    List.mem_cons, List.not_mem_nil, or_false] at hs
+  rcases hs with rfl | rfl | rfl | rfl | rfl | rfl | rfl | rfl | rfl | rfl <;> cases hsk <;>
+    first
+      | (simp at hl; done)
+      | simp [fields]
 
 end TT.Props.C14
